@@ -21,6 +21,11 @@ use std::io::Write as _;
 use std::panic::{catch_unwind, AssertUnwindSafe};
 use vmodel::container::cf_parse;
 
+#[path = "c05_api.rs"]
+pub mod api;
+#[path = "c05_leaf.rs"]
+pub mod leaf;
+
 /// The pinned sync marker (does not occur in any header this check produces).
 pub const SYNC: [u8; 16] = [0xC5, 0x05, 0x5A, 0xA5, 0x00, 0xFF, 0x10, 0x01, 0x7E, 0x81, 0x33, 0xCC, 0x0D, 0x0A, 0xFE, 0xED];
 
@@ -184,15 +189,15 @@ impl Serialize for Val {
 }
 
 #[derive(Deserialize)]
-struct CollT {
-	xs: Vec<i32>,
-	m: BTreeMap<String, String>,
+pub struct CollT {
+	pub xs: Vec<i32>,
+	pub m: BTreeMap<String, String>,
 }
 
 #[derive(Deserialize)]
-struct RecT {
-	a: i64,
-	b: String,
+pub struct RecT {
+	pub a: i64,
+	pub b: String,
 }
 
 /// Reference encoding of one datum (Avro binary encoding, from the specification).
@@ -256,7 +261,7 @@ pub fn enc_layout(v: &Val, chunk: usize, sized: bool, out: &mut Vec<u8>) {
 	}
 }
 
-fn rd_long(b: &[u8], i: &mut usize) -> Result<i64, String> {
+pub fn rd_long(b: &[u8], i: &mut usize) -> Result<i64, String> {
 	let mut u: u64 = 0;
 	let mut shift = 0u32;
 	loop {
@@ -582,6 +587,10 @@ pub struct FileSpec {
 	/// user metadata variant (C06); 0 = none (`build`)
 	#[serde(default)]
 	pub meta: u8,
+	/// true: an "API variants" case (c05_api.rs): the same history through the other public entry
+	/// points of the writer and the reader
+	#[serde(default)]
+	pub api: bool,
 }
 
 impl FileSpec {
@@ -594,7 +603,7 @@ impl FileSpec {
 			self.abs,
 			self.ops.iter().map(|o| o.short()).collect::<Vec<_>>().join(","),
 			if self.meta == 0 { String::new() } else { format!(" user_metadata=#{}", self.meta) }
-		)
+		) + if self.api { " [API variants]" } else { "" }
 	}
 }
 
@@ -965,7 +974,7 @@ pub fn reader_kinds(file_len: usize, n_values: usize, full_sweep_max: usize, tho
 	v
 }
 
-fn digits_normalised(s: &str) -> String {
+pub fn digits_normalised(s: &str) -> String {
 	let mut out = String::new();
 	let mut in_num = false;
 	for c in s.chars() {
@@ -1026,6 +1035,9 @@ fn block_summary(f: &vmodel::container::CfFile) -> String {
 }
 
 pub fn run_case(spec: &FileSpec, params: &Params, only_reader: Option<Rk>, cover: &mut Cover, verbose: bool) -> CaseOut {
+	if spec.api {
+		return api::run_api_case(spec, params, cover, verbose);
+	}
 	let mut out = CaseOut { violations: Vec::new(), sigs: Vec::new() };
 	let label = spec.label();
 	let push = |out: &mut CaseOut, class: &str, what: String, reader: Option<Rk>, msg_for_sig: &str| {
@@ -1242,13 +1254,13 @@ pub fn run_case(spec: &FileSpec, params: &Params, only_reader: Option<Rk>, cover
 // ---------------------------------------------------------------------------------------------
 // the bounded space
 
-fn header_len(bytes: &[u8]) -> Option<usize> {
+pub fn header_len(bytes: &[u8]) -> Option<usize> {
 	bytes.windows(16).position(|w| w == SYNC).map(|p| p + 16)
 }
 
 /// stored length of the block that holds one incompressible datum of s encoded bytes
 fn probe_stored_len(codec: Codec, level: u8, s: usize) -> usize {
-	let spec = FileSpec { codec, level, sk: Sk::Bytes, abs: s as u32, ops: vec![Op::Big { s, inc: true }], meta: 0 };
+	let spec = FileSpec { codec, level, sk: Sk::Bytes, abs: s as u32, ops: vec![Op::Big { s, inc: true }], meta: 0, api: false };
 	let Some((steps, _)) = plan(&spec) else { return s };
 	if let Out::Ok(bytes) = write_file(&spec, &steps) {
 		if let Some(h) = header_len(&bytes) {
@@ -1352,7 +1364,7 @@ pub fn all_specs(thorough: bool, cover: &mut Cover, cal_out: &mut Vec<Value>) ->
 					if abs == u32::MAX && ops.len() > 3 {
 						continue;
 					}
-					specs.push(FileSpec { codec, level: 0, sk, abs, ops: ops.clone(), meta: 0 });
+					specs.push(FileSpec { codec, level: 0, sk, abs, ops: ops.clone(), meta: 0, api: false });
 				}
 			}
 		}
@@ -1449,19 +1461,19 @@ pub fn all_specs(thorough: bool, cover: &mut Cover, cal_out: &mut Vec<Value>) ->
 						}
 					}
 					for (abs, ops) in cases {
-						specs.push(FileSpec { codec, level, sk, abs, ops, meta: 0 });
+						specs.push(FileSpec { codec, level, sk, abs, ops, meta: 0, api: false });
 					}
 				}
 			}
 			// levels also on a small history
 			if !main_level {
 				for sk in [Sk::Long, Sk::Null] {
-					specs.push(FileSpec { codec, level, sk, abs: 2, ops: vec![Op::S, Op::F, Op::P], meta: 0 });
+					specs.push(FileSpec { codec, level, sk, abs: 2, ops: vec![Op::S, Op::F, Op::P], meta: 0, api: false });
 				}
 			}
 		}
 		// the largest approx_block_size
-		specs.push(FileSpec { codec, level: 0, sk: Sk::Long, abs: u32::MAX, ops: vec![Op::S, Op::F, Op::P, Op::S], meta: 0 });
+		specs.push(FileSpec { codec, level: 0, sk: Sk::Long, abs: u32::MAX, ops: vec![Op::S, Op::F, Op::P, Op::S], meta: 0, api: false });
 	}
 	cover.count("specs_family_histories", n_f1 as u64);
 	cover.count("specs_family_sizes", (specs.len() - n_f1) as u64);
@@ -1494,7 +1506,7 @@ pub fn all_specs(thorough: bool, cover: &mut Cover, cal_out: &mut Vec<Value>) ->
 			cases.push((Sk::Long, k64, vec![Op::S, Op::F, r(600), Op::F, r(5000), Op::F, r(70000)]));
 			cases.push((Sk::Rec, k64, vec![Op::S, Op::F, Op::Mid { n: 5, len: 1000, inc: true }, Op::F, Op::Mid { n: 60, len: 1000, inc: true }]));
 			for (sk, abs, ops) in cases {
-				specs.push(FileSpec { codec, level, sk, abs, ops, meta: 0 });
+				specs.push(FileSpec { codec, level, sk, abs, ops, meta: 0, api: false });
 			}
 		}
 	}
@@ -1511,19 +1523,24 @@ pub fn all_specs(thorough: bool, cover: &mut Cover, cal_out: &mut Vec<Value>) ->
 					}
 					let c = Op::Coll { n, map, push: false };
 					let pc = Op::Coll { n, map, push: true };
-					specs.push(FileSpec { codec, level: 0, sk, abs: 64 * 1024, ops: vec![c.clone()], meta: 0 });
-					specs.push(FileSpec { codec, level: 0, sk, abs: 0, ops: vec![Op::S, c.clone(), Op::S], meta: 0 });
-					specs.push(FileSpec { codec, level: 0, sk, abs: 64 * 1024, ops: vec![pc.clone(), Op::S, c.clone()], meta: 0 });
+					specs.push(FileSpec { codec, level: 0, sk, abs: 64 * 1024, ops: vec![c.clone()], meta: 0, api: false });
+					specs.push(FileSpec { codec, level: 0, sk, abs: 0, ops: vec![Op::S, c.clone(), Op::S], meta: 0, api: false });
+					specs.push(FileSpec { codec, level: 0, sk, abs: 64 * 1024, ops: vec![pc.clone(), Op::S, c.clone()], meta: 0, api: false });
 				}
 			}
-			specs.push(FileSpec { codec, level: 0, sk, abs: 64 * 1024, ops: vec![Op::Coll { n: 1000, map: false, push: false }, Op::F, Op::Coll { n: 1001, map: false, push: false }], meta: 0 });
+			specs.push(FileSpec { codec, level: 0, sk, abs: 64 * 1024, ops: vec![Op::Coll { n: 1000, map: false, push: false }, Op::F, Op::Coll { n: 1001, map: false, push: false }], meta: 0, api: false });
 			// small histories on the collection schemas
 			for ops in sequences(&[Op::S, Op::P, Op::F], if thorough { 3 } else { 2 }) {
-				specs.push(FileSpec { codec, level: 0, sk, abs: 2, ops, meta: 0 });
+				specs.push(FileSpec { codec, level: 0, sk, abs: 2, ops, meta: 0, api: false });
 			}
 		}
 	}
 	cover.count("specs_family_collections", (specs.len() - n_before) as u64);
+	// F5: the other public entry points (iterator / borrowed reader API, schema(); default sync marker,
+	// write_all, serialize_all, owned configuration, inner()/inner_mut()) on a subset of the histories
+	let n_before = specs.len();
+	specs.extend(api::api_specs(thorough));
+	cover.count("specs_family_api_variants", (specs.len() - n_before) as u64);
 	// dedup, keeping order
 	let mut seen = BTreeSet::new();
 	specs.retain(|s| seen.insert(hash64(s)));
@@ -1779,7 +1796,7 @@ pub fn run(rep: &mut Report) {
 	let specs = all_specs(thorough, &mut cover, &mut cal);
 	rep.extra.insert("sizes_located_by_bisection".into(), json!(cal));
 	rep.rule = format!(
-		"HIST+SAE, every case executed in a single-threaded worker subprocess. A case = one container file: (codec in null/deflate/bzip2/snappy/xz/zstandard, level, schema in bytes/long/string/record/null, approx_block_size, operation history) written by the crate's Writer with the sync marker pinned, parsed by the independent parser (vmodel::cf_parse + own datum decoder; values must equal those written), then read by the crate's Reader through slice, &[u8]-as-BufRead, BufReader capacity 1/7/8192 and ChunkedBufRead with every uniform refill size 1..=|file| (files <= {} bytes) or {{1,2,3,7,4096,8191,8192,8193{}}} (larger files); each reader must yield exactly the written values, then Ok(None) twice. Family 'histories': ALL operation sequences of length <= {} over {{serialize(small), push_serialized(2 objects), finish_block{}}} x approx_block_size in {} x 6 codecs (default level) x 5 schemas. Family 'sizes': datum/block sizes on the buffer boundaries — uncompressed block length 8 Ki/16 Ki/32 Ki/64 Ki +-{} (+128 Ki+1{}), and, per codec and level ({}), sizes located by bisection at which the STORED (compressed) block length reaches 32 Ki/64 Ki/128 Ki, +-{} — as one big datum (bytes, string) or as a run of small datums (bytes, long, record), incompressible (xorshift) or compressible, in the templates [X] (approx_block_size=s), [S,X,S] (s+1), [X,finish,X] (64 Ki), [push(X),S] (s), [X,S] (0){}; plus approx_block_size=u32::MAX. Family 'growing blocks' (every codec; every level for zstandard{}): incompressible datums of 10 / 600 / 5000 / 70000 / 140000 bytes in successive blocks — [S,finish,X], [S,X] at approx_block_size 0, [S,finish,push(X)], small->medium->large with finish_block or approx_block_size 0 or 1000, shrinking-then-growing ([5000,F,10,F,70000], [600,F,10,F,600,F,5000], [70000,10,140000]), runs of longs 600/5000/70000, records 5x1000 then 60x1000. Family 'collections': schemas array<long> and record{{xs:array<int>,m:map<string>}} with values of {} elements (map also that large in a variant), as [V] / [S,V,S] at approx_block_size 0 / [push(V),S,V], [V(1000),finish,V(1001)], and all histories of length <= {} on these schemas, every codec. states = writer states after each call + reader runs; transitions = writer calls + values read. Non-trivial (distinct file specifications): the file has >= 2 blocks, or a block whose stored size exceeds 32 KiB, or a block whose uncompressed size is a non-zero multiple of 8192, or a later block stored in more than twice the bytes of every earlier one, or a value holding a collection of more than 1000 elements.",
+		"HIST+SAE, every case executed in a single-threaded worker subprocess. A case = one container file: (codec in null/deflate/bzip2/snappy/xz/zstandard, level, schema in bytes/long/string/record/null, approx_block_size, operation history) written by the crate's Writer with the sync marker pinned, parsed by the independent parser (vmodel::cf_parse + own datum decoder; values must equal those written), then read by the crate's Reader through slice, &[u8]-as-BufRead, BufReader capacity 1/7/8192 and ChunkedBufRead with every uniform refill size 1..=|file| (files <= {} bytes) or {{1,2,3,7,4096,8191,8192,8193{}}} (larger files); each reader must yield exactly the written values, then Ok(None) twice. Family 'histories': ALL operation sequences of length <= {} over {{serialize(small), push_serialized(2 objects), finish_block{}}} x approx_block_size in {} x 6 codecs (default level) x 5 schemas. Family 'sizes': datum/block sizes on the buffer boundaries — uncompressed block length 8 Ki/16 Ki/32 Ki/64 Ki +-{} (+128 Ki+1{}), and, per codec and level ({}), sizes located by bisection at which the STORED (compressed) block length reaches 32 Ki/64 Ki/128 Ki, +-{} — as one big datum (bytes, string) or as a run of small datums (bytes, long, record), incompressible (xorshift) or compressible, in the templates [X] (approx_block_size=s), [S,X,S] (s+1), [X,finish,X] (64 Ki), [push(X),S] (s), [X,S] (0){}; plus approx_block_size=u32::MAX. Family 'growing blocks' (every codec; every level for zstandard{}): incompressible datums of 10 / 600 / 5000 / 70000 / 140000 bytes in successive blocks — [S,finish,X], [S,X] at approx_block_size 0, [S,finish,push(X)], small->medium->large with finish_block or approx_block_size 0 or 1000, shrinking-then-growing ([5000,F,10,F,70000], [600,F,10,F,600,F,5000], [70000,10,140000]), runs of longs 600/5000/70000, records 5x1000 then 60x1000. Family 'collections': schemas array<long> and record{{xs:array<int>,m:map<string>}} with values of {} elements (map also that large in a variant), as [V] / [S,V,S] at approx_block_size 0 / [push(V),S,V], [V(1000),finish,V(1001)], and all histories of length <= {} on these schemas, every codec. Family 'API variants' (6 codecs x 7 schemas x {} histories, plus block-boundary histories): the same history written (a) without sync_marker() — must equal the pinned file byte for byte outside the 16-byte marker positions, all positions holding the same 16 bytes, (b) with serialize_all on every run of serialize calls, (c) with write_all (serialize-only histories; against the 64 KiB pinned file modulo marker), (d) with with_owned_config, (e) with allow_slow_sequence_to_bytes set on a borrowed config / an owned config / through WriterBuilder::serializer_config() and bytes presented as a sequence, (f) into a sink observed through inner()/inner_mut() after every call; and the pinned file read through Reader::deserialize() (iterator; slice, &[u8], BufReader 7, chunked 3 / 4096; also on the file cut by 1 and 17 bytes, where the iterator must yield the same Ok/Err sequence as the deserialize_next loop), deserialize_next_borrowed / deserialize_borrowed with borrowing targets (&[u8], &str, struct with &str; null codec: Ok, equal, pointing into the file; other codecs: no panic, Ok => equal) and Reader::schema() (json and fingerprint of the writer schema). Family 'leaf kinds' (in-process): 14 schemas — float, double, duration, fixed, decimal over bytes / over fixed, uuid, date, enum, union[null,float,double,fixed(16),string], array<double>, map<float>, a record of float/double/duration/fixed/union/boolean, union[duration,float,date] — x {} boundary values each (shared value alphabet incl. NaN payload bit patterns) x 6 codecs x {{one block, one block per value, [v0,finish,v1..,push(last)]}}, parsed by the independent parser + reference datum decoder and read back through deserialize_seed_next (observation modes Any and Hinted, floats by bits) via slice, &[u8], BufReader 1/7/8192, chunked 3. states = writer states after each call + reader runs; transitions = writer calls + values read. Non-trivial (distinct file specifications): the file has >= 2 blocks, or a block whose stored size exceeds 32 KiB, or a block whose uncompressed size is a non-zero multiple of 8192, or a later block stored in more than twice the bytes of every earlier one, or a value holding a collection of more than 1000 elements.",
 		params.full_sweep_max,
 		if thorough { ",5,64,32767,32768,32769,|file|-1,|file|" } else { "" },
 		if thorough { 5 } else { 3 },
@@ -1793,6 +1810,8 @@ pub fn run(rep: &mut Report) {
 		if thorough { " and every level for the other codecs" } else { "" },
 		if thorough { "0/1/999/1000/1001/1002/5000/20000" } else { "0/1/1000/1001/5000" },
 		if thorough { 3 } else { 2 },
+		if thorough { "all <= 3-operation" } else { "9" },
+		if thorough { "24 (and 3)" } else { "6" },
 	);
 	rep.assumptions.push("vmodel::container (libflate, streaming bzip2/xz, zstd::stream, snap + bit-serial CRC-32) implements the container framing of the Avro specification".into());
 	rep.assumptions.push("the datums handed to push_serialized are produced by the crate's to_datum, as its documentation prescribes".into());
@@ -1824,12 +1843,38 @@ pub fn run(rep: &mut Report) {
 		}
 	}
 	rep.extra.insert("violation_signatures".into(), json!(per_sig.iter().map(|(k, n)| json!({"signature": k, "case_groups": n})).collect::<Vec<_>>()));
+	// family 'leaf kinds' (in-process, every call into the crate under catch_unwind)
+	let leaf_cases = leaf::cases(thorough);
+	rep.extra.insert("leaf_kind_cases".into(), json!(leaf_cases.len()));
+	let leaf_results: Vec<(Cover, Vec<Violation>)> = leaf_cases
+		.par_chunks(8)
+		.map(|cs| {
+			let mut c = Cover::default();
+			let mut out = Vec::new();
+			for case in cs {
+				leaf::run_case(case, &mut c, &mut out, false);
+			}
+			(c, out)
+		})
+		.collect();
+	for (c, vs) in leaf_results {
+		cover.merge(c);
+		for v in vs {
+			let sig = format!("{}|{}", v.class, truncate(&digits_normalised(v.what.split(": ").next().unwrap_or("")), 120));
+			let n = per_sig.entry(sig).or_insert(0);
+			*n += 1;
+			if *n <= KEEP_PER_SIG {
+				rep.violations.push(v);
+			}
+		}
+	}
 	cover.count("worker_batches", n_batches as u64);
 	cover.count("violation_signatures(class,codec,level,schema,message)", per_sig.len() as u64);
 	// vacuity guards
 	let guards = ["files_written", "files_with_2_or_more_blocks", "blocks_stored_gt_32KiB", "blocks_stored_gt_64KiB", "blocks_stored_gt_128KiB", "blocks_data_multiple_of_8192", "blocks_stored_within_2_of_32Ki_64Ki_128Ki", "reads_ok_slice", "reads_ok_bufreader", "reads_ok_chunked", "files_without_blocks", "blocks_with_zero_bytes_of_data", "files_partitioned_as_documented", "reads_ok_of_files_with_collections_of_more_than_1000_elements"];
+	let guards: Vec<&str> = guards.iter().copied().chain(api::GUARDS.iter().copied()).chain(leaf::GUARDS.iter().copied()).collect();
 	let per_codec: Vec<String> = Codec::ALL.iter().map(|c| format!("files_with_a_later_block_more_than_twice_every_earlier_one(codec={})", c.name())).collect();
-	let mut guards: Vec<&str> = guards.to_vec();
+	let mut guards: Vec<&str> = guards.clone();
 	guards.extend(per_codec.iter().map(|s| s.as_str()));
 	vacuity_guards("C05", rep, &mut cover, &guards);
 	rep.cover.merge(cover);
@@ -1854,6 +1899,27 @@ pub fn vacuity_guards(prop: &str, rep: &mut Report, cover: &mut Cover, guards: &
 
 pub fn replay(v: &Value) -> i32 {
 	let r = &v["replay"];
+	if !r["leaf"].is_null() {
+		let case: leaf::LeafCase = match serde_json::from_value(r["leaf"].clone()) {
+			Ok(c) => c,
+			Err(e) => {
+				eprintln!("bad replay token: {e}");
+				return 2;
+			}
+		};
+		println!("replaying leaf-kind case {case:?}");
+		let mut out = Vec::new();
+		leaf::run_case(&case, &mut Cover::default(), &mut out, true);
+		for v in &out {
+			println!("  [{}] {}", v.class, truncate(&v.what, 1500));
+		}
+		return if out.is_empty() {
+			println!("  no violation");
+			0
+		} else {
+			1
+		};
+	}
 	let spec: FileSpec = match serde_json::from_value(r["spec"].clone()) {
 		Ok(s) => s,
 		Err(e) => {
